@@ -269,13 +269,14 @@ func c14DerivJudge(args, real, drv json.RawMessage) *core.Verdict {
 		return core.Skip(r.BuildErr)
 	}
 	var d struct {
-		Res           any     `json:"res"`
-		Err           *string `json:"err"`
-		RecvUnchanged bool    `json:"recvUnchanged"`
-		Confined      bool    `json:"confined"`
-		WellTyped     bool    `json:"wellTyped"`
-		RF            bool    `json:"rf"`
-		Bad           string  `json:"bad"`
+		Res           any       `json:"res"`
+		Err           *string   `json:"err"`
+		RecvUnchanged bool      `json:"recvUnchanged"`
+		Confined      bool      `json:"confined"`
+		WellTyped     bool      `json:"wellTyped"`
+		RF            bool      `json:"rf"`
+		Affected      *[]string `json:"affected"`
+		Bad           string    `json:"bad"`
 	}
 	if err := json.Unmarshal(drv, &d); err != nil || d.Bad != "" {
 		return core.Disagree("driver: " + string(drv[:min(len(drv), 300)]))
@@ -302,6 +303,22 @@ func c14DerivJudge(args, real, drv json.RawMessage) *core.Verdict {
 	if (r.Err != "") != (d.Err != nil) {
 		return core.Disagree(fmt.Sprintf("error class: real %q, model %v", r.Err, d.Err))
 	}
+	// the hypothesis of carry_partial (Props/C14Carry.lean), evaluated by the driver on the program's own write log:
+	// the fields of the copy the writes do not keep must lie inside the operation's frame
+	if d.Affected == nil {
+		if c14Ctx != nil {
+			c14Ctx.Count("carry:" + r.Op + ":not-applicable(several copies or error)")
+		}
+	} else {
+		if c14Ctx != nil {
+			c14Ctx.Count(fmt.Sprintf("carry:%s:checked(%d fields affected)", r.Op, len(*d.Affected)))
+		}
+		for _, f := range *d.Affected {
+			if !c14CarryFrame[r.Op][f] {
+				return core.Disagree("the heap program of " + r.Op + " does not keep field " + f + ", which is outside the operation's frame")
+			}
+		}
+	}
 	if (r.Res == nil) != (d.Res == nil) {
 		return core.Disagree("one side returns no project")
 	}
@@ -320,6 +337,19 @@ func c14DerivJudge(args, real, drv json.RawMessage) *core.Verdict {
 		return core.Disagree("heap program ≠ real derivation at " + where)
 	}
 	return nil
+}
+
+// c14CarryFrame: the top-level fields of Project each derivation may change (everything else must be carried)
+var c14CarryFrame = map[string]map[string]bool{
+	"WithProfiles":                    {"Services": true, "DisabledServices": true, "Profiles": true},
+	"WithServicesEnabled":             {"Services": true, "DisabledServices": true, "Profiles": true},
+	"WithServicesDisabled":            {"Services": true, "DisabledServices": true},
+	"WithSelectedServices":            {"Services": true, "DisabledServices": true},
+	"WithoutUnnecessaryResources":     {"Networks": true, "Volumes": true, "Secrets": true, "Configs": true},
+	"WithServicesTransform":           {"Services": true},
+	"WithImagesResolved":              {"Services": true},
+	"WithServicesEnvironmentResolved": {"Services": true},
+	"WithServicesLabelsResolved":      {"Services": true},
 }
 
 // c14MinID: the smallest non-zero model identity in an encoding (opaque payloads excluded)
